@@ -118,8 +118,12 @@ SigOf(item) == IF item.kind = "fn" THEN Sig(item.params, item.ret)
 (* ---- names ------------------------------------------------------------- *)
 (* "declared": the name of the item itself.  "unknown": a name the script   *)
 (* does not declare.  "helper": the internal name of a compiler-generated   *)
-(* clone/drop/eq function.  Only declared names are gettable.               *)
-NameClasses == {"declared", "unknown", "helper"}
+(* clone/drop/eq function.  "nonfn": the name of an item the script does    *)
+(* declare but that is not a function or filtermap - a constant whose type  *)
+(* is the return type of the probed item (its initialiser is compiled like  *)
+(* a parameterless function), a record type.  Only declared names of        *)
+(* functions and filtermaps are gettable.                                   *)
+NameClasses == {"declared", "unknown", "helper", "nonfn"}
 
 (* ---- module placement -------------------------------------------------- *)
 (* A script is a tree of modules (pkg, pkg.a, pkg.a.c, ...).  An item may   *)
